@@ -523,3 +523,47 @@ Proof.
   intros Hn Hg. unfold ssa_eval. rewrite ssa_steps_filter.
   rewrite (gc_only_inserts concat deep steps g Hn Hg). reflexivity.
 Qed.
+
+
+(* ------------------------------------------------------------------ *)
+(** * Regression record: ONE visited set per step in aliasLive is unsound
+
+   Witness (1-bit values): n := concat a b ; l := slice n [0:2] ; q := a xor b ;
+   s := q xnor q ; ret l s.  At q := a xor b both a and b are at their last use.
+   The query for a succeeds (a -> n -> l, l is live) and leaves a and n marked;
+   with a visited set shared by the step's queries the query for b stops at the
+   marked n and answers "no live alias": gc b, although l still reads b's wire.
+   s then receives b's recycled id. *)
+Definition cv (id : N) (c : Z) : val := mkVal id true 32%nat true c.
+(* values: a=0 b=1 n=2 l=3 q=4 s=5 ; constants $0=50 $2=51 ; {zero}=100 {one}=101 *)
+Definition wit2_prog : sprog := mkSprog [(0%N, 1%nat); (1%N, 1%nat)] 100%N 101%N [] [xor_c; xnor_c] [2%nat; 1%nat].
+Definition wit2_steps : list instr :=
+  [ mkInstr OConcat [wv 0; wv 1] (Some (mkVal 2%N false 2%nat false 0%Z)) [] None 0%nat;
+    mkInstr OSlice [mkVal 2%N false 2%nat false 0%Z; cv 50 0; cv 51 2] (Some (mkVal 3%N false 2%nat false 0%Z)) [] None 0%nat;
+    mkInstr OGen [wv 0; wv 1] (Some (wv 4)) [] None 0%nat;
+    mkInstr OGen [wv 4; wv 4] (Some (wv 5)) [] None 1%nat;
+    mkInstr ORet [mkVal 3%N false 2%nat false 0%Z; wv 5] None [] None 0%nat ].
+
+Lemma gc_shared_seen_refuted_witness :
+  wf_prog wit2_prog wit2_steps = true /\
+  (exists g, gc_shared_seen wit2_steps = Some g /\
+     no_premature_reuse wit2_prog g = false /\
+     ssa_eval wit2_prog wit2_steps [false; false] = Some [false; false; true] /\
+     stream_eval wit2_prog g [false; false] = Some [false; true; true]) /\
+  (* the code as it is (fresh visited set per query) and the model of the theorems agree and are fine *)
+  gc_visited wit2_steps = gc_fixed wit2_steps /\
+  (exists g, gc_fixed wit2_steps = Some g /\ no_premature_reuse wit2_prog g = true /\
+     stream_eval wit2_prog g [false; false] = ssa_eval wit2_prog wit2_steps [false; false]).
+Proof.
+  split; [vm_compute; reflexivity|]. split.
+  - eexists. split; [vm_compute; reflexivity|]. split; [vm_compute; reflexivity|].
+    split; vm_compute; reflexivity.
+  - split; [vm_compute; reflexivity|]. eexists. split; [vm_compute; reflexivity|]. split; vm_compute; reflexivity.
+Qed.
+
+Theorem gc_shared_seen_refuted : ~ (forall p steps g, wf_prog p steps = true -> gc_shared_seen steps = Some g ->
+                                      no_premature_reuse p g = true).
+Proof.
+  intros H. destruct gc_shared_seen_refuted_witness as (Hwf & (g & Hg & Hn & _) & _).
+  specialize (H _ _ _ Hwf Hg). rewrite Hn in H. discriminate.
+Qed.
